@@ -78,7 +78,7 @@ _SYM_MODELLED = ["XSalsa20 / ChaCha20 / HChaCha20 are the external crates salsa2
                  "Poly1305: hand-written model of poly1305_soft.rs (Impl/Poly1305.v), PROVED equal to RFC 8439 for every key / message / chunking (Refine/Poly1305.v) and tied to the crate by correspondence (incl. adversarial carry operands)",
                  "subtle::ct_eq modelled as byte-string equality; zeroize not modelled"]
 
-PROPS["C07"] = {
+PROPS["C07"] = {  # gen: Gen/Kernels.v (vkernel.py)
     "theorems": [
         {"name": "C07_blake2b_compress", "status": "proved", "statement": "Rust compress (closures g/round, 12-row SIGMA) = RFC 7693 F for every h, t < 2^128, flag, 128-byte block"},
         {"name": "C07_generichash", "status": "proved", "statement": "crypto_generichash = RFC 7693 BLAKE2b for every digest length 16..64, key none or 16..64 bytes, every message"},
@@ -89,6 +89,10 @@ PROPS["C07"] = {
         {"name": "C07_poly1305", "status": "proved", "statement": "forall 32-byte key, message: crypto_onetimeauth (model of poly1305_soft.rs: key clamping into 44/44/42-bit limbs, block loading, multiplication / carry, buffering, finalize with two carry rounds, conditional subtraction of p, pad addition, packing) = RFC 8439 Poly1305"},
         {"name": "C07_poly1305_block", "status": "proved", "statement": "one block step: limb value = ((acc + n) * r) mod p, limbs stay carried, every u128 sum < 2^92 (no overflow of any checked operation; every `as u64` exact)"},
         {"name": "C07_poly1305_block_is_code", "status": "proved", "statement": "the Rust block body with its masks, shifts, `as u64` and wrapping_add = that arithmetic step on the loaded limbs"},
+        {"name": "C07_hsalsa20", "status": "proved", "statement": "forall key, input: crypto_core_hsalsa20 as TRANSLATED from crypto_core.rs this run (32 xor-rotate-add statements per pass, 10 passes, word layout, output words) = HSalsa20 of the Salsa20 specification"},
+        {"name": "C07_hchacha20", "status": "proved", "statement": "forall 32-byte key, 16-byte input: crypto_core_hchacha20 as translated (8 quarter-round calls per pass, chacha20_quarterround / chacha20_round bodies, 10 passes, layout, outputs) = HChaCha20"},
+        {"name": "C07_siphash_round", "status": "proved", "statement": "forall v0..v3: the round closure of siphash24 as translated (14 statements) = the SipRound of the SipHash paper"},
+        {"name": "C07_siphash_parameters", "status": "proved", "statement": "siphash24's initial constants, c = 2 compression rounds, d = 4 finalisation rounds and the 0xff constant as read from the source = SipHash-2-4's"},
         {"name": "C07_gen_tables", "status": "proved", "statement": "SIGMA / IV / size constants regenerated from blake2b_soft.rs equal the model's"},
         {"name": "C07_kat_blake2b", "status": "proved", "statement": "non-vacuity: RFC 7693 'abc' through the implementation model"},
     ],
@@ -100,7 +104,7 @@ PROPS["C07"] = {
     "modelled": _SYM_MODELLED + ["SHA-512 / HMAC: implementation is the external sha2 crate; Spec/Sha512.v is an executable FIPS 180-4 reference tied by correspondence",
                                   "SipHash, HSalsa20, HChaCha20: model = specification (the Rust kernels are compared by correspondence; see DESIGN 'Changes')"],
     "assumptions": ["libsodium as second reference", "Poly1305 limb arithmetic = RFC 8439 is checked by correspondence incl. carry corner operands (proof pending, see DESIGN 'Changes')"],
-    "partial": "BLAKE2b and Poly1305 proved = their RFCs; SipHash-2-4, HSalsa20, HChaCha20, SHA-512 / HMAC (external crate) : Impl = Spec by correspondence only",
+    "partial": "BLAKE2b, Poly1305 (hand models) and HSalsa20, HChaCha20, the SipHash round (translated kernels) proved = their specifications; the surrounding loop of siphash24 is matched as a text template; SHA-512 / HMAC (external crate): correspondence only",
 }
 
 PROPS["C08"] = {
